@@ -807,9 +807,9 @@ Proof.
       split; [reflexivity|]. split; [apply alookup_ainsert_same|].
       split; [apply alookup_ainsert_same|].
       intros j Hj. apply alookup_ainsert_other; exact Hj.
-    - destruct (store_call s) as [s1 failed] eqn:Esc.
-      destruct failed; [discriminate|].
-      destruct (add_hook_err s fact); [discriminate|]. injection H as <- <-.
+    - destruct (add_hook_err s fact); [discriminate|].
+      destruct (store_call s) as [s1 failed] eqn:Esc.
+      destruct failed; [discriminate|]. injection H as <- <-.
       unfold store_call in Esc. injection Esc as <- _.
       cbn [st_facts st_store set_store set_facts].
       split; [reflexivity|]. split; [apply alookup_ainsert_same|].
